@@ -356,6 +356,37 @@ func runC06(c *Ctx) {
 	if nWriters < 3 {
 		R.Fatal("only %d socket-writing functions found in service (anchor)", nWriters)
 	}
+	// ---- 3b. addressing: a reply is encoded with the header of the very message it answers
+	R.Rules["S.addressing"] = "each reply frame is built by Header.Encode of the header of the message being answered (msg.JTMessage.Header: the sender's phone and protocol version), with ReplyID = the handler's ReplyProtocol() and body = ReplyBody of that same message; not a header kept from another message"
+	for _, name := range []string{"defaultReplyEvent", "subPackReplyEvent"} {
+		fn := c.P.Method("service", "connection", name)
+		if fn == nil {
+			R.Fatal("anchor connection.%s not found", name)
+			continue
+		}
+		rs, msg := extractReplyShape(fn)
+		ok, d := rs != nil && msg == "", msg
+		if ok {
+			_, isParam := rs.msgRoot.(*ssa.Parameter)
+			if !isParam || len(rs.msgPath) == 0 || rs.msgPath[len(rs.msgPath)-1] != "JTMessage" {
+				ok, d = false, "the header that is encoded is not the header of the message being answered (parameter msg → JTMessage → Header): a reply can carry the phone / version of another message"
+			}
+		}
+		if ok && name == "defaultReplyEvent" {
+			switch {
+			case !rs.replyIDOK:
+				ok, d = false, "ReplyID of the encoded header is not set from ReplyProtocol()"
+			case !rs.bodyOK:
+				ok, d = false, rs.bodyDetail
+			}
+		}
+		st := report.Discharged
+		if !ok {
+			st = report.Violated
+		}
+		R.Add("S.addressing", shortFn(fn), c.P.RelPos(fn.Pos()), st, d)
+	}
+	R.Require("S.addressing", 2, "")
 	// ---- 4. single receive site of msgChan
 	nRecv, where := 0, ""
 	for _, fn := range c.RepoFuncs("service") {
